@@ -72,6 +72,60 @@ def history_pair(rng):
     return prog(rules), prog(other)
 
 
+def multibucket_program(rng):
+    """an instruction that matches rules filed under different prefixes of the matcher's index (`b{c} x`, `bne x`,
+    `bn{d} x` ...), all of them failing: the diagnostic lists every candidate, in an order that must not depend
+    on how a hash map happens to iterate"""
+    mn = rng.choice(["b", "j", "l"])
+    conds = ["ne", "eq", "nz", "cs"]
+    rng.shuffle(conds)
+    c0, c1 = conds[0], conds[1]
+    rules = ["%s{c: cond} {x: u8} => 0x10 @ c @ x" % mn,
+             "%s%s {x: u8} => 0x20 @ x" % (mn, c0),
+             "%s%s%s {x: u4} => 0x3 @ x" % (mn, c0[0], "{d: cond2}"),
+             "%s%s {x: s8} => 0x40 @ x" % (mn, c0),
+             "%s%s {x: u8}, {y: u8} => 0x50 @ x @ y" % (mn, c1)]
+    rng.shuffle(rules)
+    lines = ["%s%s %d" % (mn, c0, rng.choice([300, 256, -200, 1000])), "%s%s %d" % (mn, c1, rng.choice([300, 5])),
+             "%s%s 5" % (mn, c0)]
+    rng.shuffle(lines)
+    return ("#subruledef cond\n{\n    %s => 0x1\n    %s => 0x2\n}\n#subruledef cond2\n{\n    %s => 0x3\n    %s => 0x4\n}\n"
+            % (c0, c1, c0[1:], "zz") + "#ruledef\n{\n" + "".join("    %s\n" % r for r in rules) + "}\n" + "\n".join(lines) + "\n")
+
+
+def disk_history(ck, rng, exe, n):
+    """the real executable, twice in one directory with the same output names: what the first run left on the
+    disk (a longer file of the same name) must not show in the result of the second.  -> events"""
+    import os, shutil, subprocess
+    events = []
+    base = os.path.join(ck.wd, "disk")
+    shutil.rmtree(base, ignore_errors=True)
+    for k in range(n):
+        long_src = "#d8 " + ", ".join(str(rng.randrange(256)) for _ in range(rng.choice([40, 300, 9000]))) + "\n"
+        short_src = "#d8 " + ", ".join(str(rng.randrange(256)) for _ in range(rng.choice([1, 4, 17]))) + "\n"
+        fmt = rng.choice(["binary", "hexstr", "annotated", "intelhex", "symbols"])
+        outs = []
+        for variant in ("fresh", "after-longer"):
+            d = os.path.join(base, "%d%s" % (k, variant[0]))
+            os.makedirs(d)
+            open(os.path.join(d, "long.asm"), "w").write(long_src)
+            open(os.path.join(d, "short.asm"), "w").write(short_src + ("lbl:\n" if fmt == "symbols" else ""))
+            if variant == "after-longer":
+                common.patient_run([exe, "long.asm", "-q", "-f", fmt, "-o", "out.bin"], 30, cwd=d,
+                                   stdout=subprocess.DEVNULL, stderr=subprocess.DEVNULL)
+            p = common.patient_run([exe, "short.asm", "-q", "-f", fmt, "-o", "out.bin"], 30, cwd=d,
+                                   stdout=subprocess.PIPE, stderr=subprocess.PIPE)
+            try:
+                data = open(os.path.join(d, "out.bin"), "rb").read()
+            except OSError:
+                data = b"<none>"
+            outs.append((variant, hashlib.sha1(bytes([p.returncode & 255]) + data).hexdigest()))
+            shutil.rmtree(d, ignore_errors=True)
+        events.append(("disk-history:%s" % fmt, outs, {"long": long_src[:80], "short": short_src, "format": fmt}))
+    shutil.rmtree(base, ignore_errors=True)
+    return events
+
+
 def run_c10(ck):
     quick = ck.tier == "quick"
     rng = random.Random(ck.seed)
@@ -104,6 +158,9 @@ def run_c10(ck):
             base.append(("history%d%s" % (i, tag), {"mode": "asm", "files": {"main.asm": text}, "roots": ["main.asm"],
                                                     "formats": ["binary", "annotated", "symbols"],
                                                     "want": {"messages": True, "printed": True}}))
+    for i in range(30 if quick else 400):
+        base.append(("multibucket%d" % i, {"mode": "asm", "files": {"main.asm": multibucket_program(rng)}, "roots": ["main.asm"],
+                                           "formats": ["binary"], "want": {"messages": True, "printed": True}}))
     src = "#ruledef { ld {x: u8} => 0x11 @ x }\nA = 1\nB = 2\nstart:\nld A\nld start\n.inner:\nld B\n"
     for args in BAD_CMDLINES:
         base.append(("cmdline:" + " ".join(args[2:]), {"mode": "drive", "files": {"main.asm": src}, "args": args,
@@ -131,6 +188,12 @@ def run_c10(ck):
             for t, d in enumerate(full_digest(r)):
                 digests[i].append(("thread%d" % t, d))
         ck.evaluations += 4
+    # the real executable run twice in one directory
+    for nm, outs, info in disk_history(ck, rng, common.build_binary(), 12 if quick else 150):
+        names.append(nm)
+        jobs.append({"info": info})
+        digests.append(outs)
+        ck.evaluations += 3
     events = []
     for i, ds in enumerate(digests):
         runs = [{"budget": 0, "ok": True, "iters": 0, "out": d, "where": w} for w, d in ds]
